@@ -1,0 +1,445 @@
+// Verification shim, compiled only with `--cfg prometheus_verif`.
+//
+// Drop-in replacements for the atomics and locks this crate uses. Every
+// operation is reported to a hook installed for the calling thread before it
+// is performed (so that an external deterministic scheduler can decide which
+// thread takes the next step) and its result is reported afterwards. Threads
+// without a hook pass straight through to the real primitives.
+
+#![allow(missing_docs)]
+#![allow(missing_debug_implementations)]
+
+use std::cell::RefCell;
+use std::fmt;
+use std::ops::{Deref, DerefMut};
+use std::sync::atomic::Ordering;
+use std::sync::Arc;
+
+/// Kind of a reported synchronisation event.
+#[derive(Clone, Copy, Debug, PartialEq, Eq, Hash)]
+pub enum Kind {
+    Load,
+    Store,
+    Swap,
+    FetchAdd,
+    FetchSub,
+    CasWeak,
+    MutexLock,
+    MutexUnlock,
+    RwRead,
+    RwReadUnlock,
+    RwWrite,
+    RwWriteUnlock,
+}
+
+/// An operation about to be performed.
+#[derive(Clone, Copy, Debug)]
+pub struct Event {
+    pub addr: usize,
+    pub kind: Kind,
+    /// Memory ordering of the operation (success ordering for `CasWeak`).
+    pub success: Ordering,
+    /// Failure ordering (`CasWeak` only).
+    pub failure: Ordering,
+    /// Bit pattern of the operand (value stored / added / the CAS's new value).
+    pub operand: u64,
+    /// Bit pattern of the expected value (`CasWeak` only).
+    pub expected: u64,
+}
+
+/// Result of a performed operation.
+#[derive(Clone, Copy, Debug)]
+pub struct Outcome {
+    pub old: u64,
+    pub new: u64,
+    pub ok: bool,
+}
+
+/// What the hook wants the operation to do.
+#[derive(Clone, Copy, Debug, PartialEq, Eq)]
+pub enum Directive {
+    Proceed,
+    /// Only honoured by `compare_exchange_weak`, which is allowed to fail
+    /// spuriously.
+    FailSpuriously,
+}
+
+pub trait Hook: Send + Sync {
+    fn before(&self, e: &Event) -> Directive;
+    fn after(&self, e: &Event, o: &Outcome);
+}
+
+thread_local! {
+    static HOOK: RefCell<Option<Arc<dyn Hook>>> = const { RefCell::new(None) };
+}
+
+/// Install (or remove) the hook of the calling thread.
+pub fn set_thread_hook(h: Option<Arc<dyn Hook>>) {
+    let _ = HOOK.try_with(|c| *c.borrow_mut() = h);
+}
+
+#[inline]
+fn hook() -> Option<Arc<dyn Hook>> {
+    HOOK.try_with(|c| c.try_borrow().ok().and_then(|h| h.clone()))
+        .ok()
+        .flatten()
+}
+
+fn ev(addr: usize, kind: Kind, success: Ordering, operand: u64) -> Event {
+    Event {
+        addr,
+        kind,
+        success,
+        failure: Ordering::Relaxed,
+        operand,
+        expected: 0,
+    }
+}
+
+macro_rules! atomic_wrapper {
+    ($name:ident, $std:ty, $prim:ty) => {
+        pub struct $name {
+            inner: $std,
+        }
+
+        impl fmt::Debug for $name {
+            fn fmt(&self, f: &mut fmt::Formatter<'_>) -> fmt::Result {
+                self.inner.fmt(f)
+            }
+        }
+
+        impl $name {
+            pub const fn new(v: $prim) -> Self {
+                Self {
+                    inner: <$std>::new(v),
+                }
+            }
+
+            fn addr(&self) -> usize {
+                self as *const Self as usize
+            }
+
+            pub fn load(&self, o: Ordering) -> $prim {
+                match hook() {
+                    None => self.inner.load(o),
+                    Some(h) => {
+                        let e = ev(self.addr(), Kind::Load, o, 0);
+                        h.before(&e);
+                        let v = self.inner.load(o);
+                        h.after(
+                            &e,
+                            &Outcome {
+                                old: v as u64,
+                                new: v as u64,
+                                ok: true,
+                            },
+                        );
+                        v
+                    }
+                }
+            }
+
+            pub fn store(&self, val: $prim, o: Ordering) {
+                match hook() {
+                    None => self.inner.store(val, o),
+                    Some(h) => {
+                        let e = ev(self.addr(), Kind::Store, o, val as u64);
+                        h.before(&e);
+                        // The scheduler runs one thread at a time, so reading
+                        // the previous value here is not racy.
+                        let old = self.inner.swap(val, o);
+                        h.after(
+                            &e,
+                            &Outcome {
+                                old: old as u64,
+                                new: val as u64,
+                                ok: true,
+                            },
+                        );
+                    }
+                }
+            }
+
+            pub fn swap(&self, val: $prim, o: Ordering) -> $prim {
+                match hook() {
+                    None => self.inner.swap(val, o),
+                    Some(h) => {
+                        let e = ev(self.addr(), Kind::Swap, o, val as u64);
+                        h.before(&e);
+                        let old = self.inner.swap(val, o);
+                        h.after(
+                            &e,
+                            &Outcome {
+                                old: old as u64,
+                                new: val as u64,
+                                ok: true,
+                            },
+                        );
+                        old
+                    }
+                }
+            }
+
+            pub fn fetch_add(&self, val: $prim, o: Ordering) -> $prim {
+                match hook() {
+                    None => self.inner.fetch_add(val, o),
+                    Some(h) => {
+                        let e = ev(self.addr(), Kind::FetchAdd, o, val as u64);
+                        h.before(&e);
+                        let old = self.inner.fetch_add(val, o);
+                        h.after(
+                            &e,
+                            &Outcome {
+                                old: old as u64,
+                                new: old.wrapping_add(val) as u64,
+                                ok: true,
+                            },
+                        );
+                        old
+                    }
+                }
+            }
+
+            pub fn fetch_sub(&self, val: $prim, o: Ordering) -> $prim {
+                match hook() {
+                    None => self.inner.fetch_sub(val, o),
+                    Some(h) => {
+                        let e = ev(self.addr(), Kind::FetchSub, o, val as u64);
+                        h.before(&e);
+                        let old = self.inner.fetch_sub(val, o);
+                        h.after(
+                            &e,
+                            &Outcome {
+                                old: old as u64,
+                                new: old.wrapping_sub(val) as u64,
+                                ok: true,
+                            },
+                        );
+                        old
+                    }
+                }
+            }
+
+            pub fn compare_exchange_weak(
+                &self,
+                current: $prim,
+                new: $prim,
+                success: Ordering,
+                failure: Ordering,
+            ) -> Result<$prim, $prim> {
+                match hook() {
+                    None => self
+                        .inner
+                        .compare_exchange_weak(current, new, success, failure),
+                    Some(h) => {
+                        let e = Event {
+                            addr: self.addr(),
+                            kind: Kind::CasWeak,
+                            success,
+                            failure,
+                            operand: new as u64,
+                            expected: current as u64,
+                        };
+                        let r = match h.before(&e) {
+                            Directive::FailSpuriously => Err(self.inner.load(failure)),
+                            // Strong CAS: spurious failures happen only when
+                            // the hook asks for one.
+                            Directive::Proceed => self
+                                .inner
+                                .compare_exchange(current, new, success, failure),
+                        };
+                        let o = match r {
+                            Ok(old) => Outcome {
+                                old: old as u64,
+                                new: new as u64,
+                                ok: true,
+                            },
+                            Err(old) => Outcome {
+                                old: old as u64,
+                                new: old as u64,
+                                ok: false,
+                            },
+                        };
+                        h.after(&e, &o);
+                        r
+                    }
+                }
+            }
+        }
+    };
+}
+
+atomic_wrapper!(AtomicU64, std::sync::atomic::AtomicU64, u64);
+atomic_wrapper!(AtomicI64, std::sync::atomic::AtomicI64, i64);
+
+fn lock_event(addr: usize, kind: Kind) {
+    if let Some(h) = hook() {
+        let e = ev(addr, kind, Ordering::SeqCst, 0);
+        h.before(&e);
+    }
+}
+
+fn lock_done(addr: usize, kind: Kind) {
+    if let Some(h) = hook() {
+        let e = ev(addr, kind, Ordering::SeqCst, 0);
+        h.after(
+            &e,
+            &Outcome {
+                old: 0,
+                new: 0,
+                ok: true,
+            },
+        );
+    }
+}
+
+/// `std::sync::Mutex`-style mutex.
+#[derive(Default)]
+pub struct Mutex<T> {
+    inner: std::sync::Mutex<T>,
+}
+
+pub struct MutexGuard<'a, T> {
+    guard: Option<std::sync::MutexGuard<'a, T>>,
+    addr: usize,
+}
+
+impl<T> fmt::Debug for Mutex<T> {
+    fn fmt(&self, f: &mut fmt::Formatter<'_>) -> fmt::Result {
+        write!(f, "Mutex")
+    }
+}
+
+impl<T> Mutex<T> {
+    pub fn new(t: T) -> Self {
+        Mutex {
+            inner: std::sync::Mutex::new(t),
+        }
+    }
+
+    pub fn lock(&self) -> std::sync::LockResult<MutexGuard<'_, T>> {
+        let addr = self as *const Self as usize;
+        lock_event(addr, Kind::MutexLock);
+        let r = match self.inner.lock() {
+            Ok(g) => Ok(MutexGuard {
+                guard: Some(g),
+                addr,
+            }),
+            Err(p) => Err(std::sync::PoisonError::new(MutexGuard {
+                guard: Some(p.into_inner()),
+                addr,
+            })),
+        };
+        lock_done(addr, Kind::MutexLock);
+        r
+    }
+}
+
+impl<T> Deref for MutexGuard<'_, T> {
+    type Target = T;
+    fn deref(&self) -> &T {
+        self.guard.as_ref().unwrap()
+    }
+}
+
+impl<T> DerefMut for MutexGuard<'_, T> {
+    fn deref_mut(&mut self) -> &mut T {
+        self.guard.as_mut().unwrap()
+    }
+}
+
+impl<T> Drop for MutexGuard<'_, T> {
+    fn drop(&mut self) {
+        lock_event(self.addr, Kind::MutexUnlock);
+        drop(self.guard.take());
+        lock_done(self.addr, Kind::MutexUnlock);
+    }
+}
+
+/// `parking_lot::RwLock`-style reader-writer lock.
+#[derive(Default)]
+pub struct RwLock<T> {
+    inner: parking_lot::RwLock<T>,
+}
+
+pub struct RwLockReadGuard<'a, T> {
+    guard: Option<parking_lot::RwLockReadGuard<'a, T>>,
+    addr: usize,
+}
+
+pub struct RwLockWriteGuard<'a, T> {
+    guard: Option<parking_lot::RwLockWriteGuard<'a, T>>,
+    addr: usize,
+}
+
+impl<T> fmt::Debug for RwLock<T> {
+    fn fmt(&self, f: &mut fmt::Formatter<'_>) -> fmt::Result {
+        write!(f, "RwLock")
+    }
+}
+
+impl<T> RwLock<T> {
+    pub fn new(t: T) -> Self {
+        RwLock {
+            inner: parking_lot::RwLock::new(t),
+        }
+    }
+
+    pub fn read(&self) -> RwLockReadGuard<'_, T> {
+        let addr = self as *const Self as usize;
+        lock_event(addr, Kind::RwRead);
+        let g = self.inner.read();
+        lock_done(addr, Kind::RwRead);
+        RwLockReadGuard {
+            guard: Some(g),
+            addr,
+        }
+    }
+
+    pub fn write(&self) -> RwLockWriteGuard<'_, T> {
+        let addr = self as *const Self as usize;
+        lock_event(addr, Kind::RwWrite);
+        let g = self.inner.write();
+        lock_done(addr, Kind::RwWrite);
+        RwLockWriteGuard {
+            guard: Some(g),
+            addr,
+        }
+    }
+}
+
+impl<T> Deref for RwLockReadGuard<'_, T> {
+    type Target = T;
+    fn deref(&self) -> &T {
+        self.guard.as_ref().unwrap()
+    }
+}
+
+impl<T> Drop for RwLockReadGuard<'_, T> {
+    fn drop(&mut self) {
+        lock_event(self.addr, Kind::RwReadUnlock);
+        drop(self.guard.take());
+        lock_done(self.addr, Kind::RwReadUnlock);
+    }
+}
+
+impl<T> Deref for RwLockWriteGuard<'_, T> {
+    type Target = T;
+    fn deref(&self) -> &T {
+        self.guard.as_ref().unwrap()
+    }
+}
+
+impl<T> DerefMut for RwLockWriteGuard<'_, T> {
+    fn deref_mut(&mut self) -> &mut T {
+        self.guard.as_mut().unwrap()
+    }
+}
+
+impl<T> Drop for RwLockWriteGuard<'_, T> {
+    fn drop(&mut self) {
+        lock_event(self.addr, Kind::RwWriteUnlock);
+        drop(self.guard.take());
+        lock_done(self.addr, Kind::RwWriteUnlock);
+    }
+}
